@@ -79,9 +79,9 @@ def strictEq (E : Env) (x y : Val) : Bool :=
   match x, y with
   | .undef, .undef => true
   | .null, .null => true
-  | .bool a, .bool b => a = b
-  | .str a, .str b => a = b
-  | _, _ => if isNum x ∧ isNum y then cmpReal (toNumber E x) (toNumber E y) = some .eq else false
+  | .bool a, .bool b => a == b
+  | .str a, .str b => a == b
+  | _, _ => if isNum x ∧ isNum y then eqNum (toNumber E x) (toNumber E y) else false
 
 /-- §11.9.3 abstract equality on primitives (steps 1–7, 10) -/
 def looseEq (E : Env) : Nat → Val → Val → Bool
